@@ -765,7 +765,7 @@ impl Prop for C20 {
         for k in ["missing_file_among_several", "missing_file", "directory_as_file", "no_file_argument", "extra_argument", "unknown_flag", "unknown_subcommand", "invalid_utf8_path", "file_below_a_file"] {
             v.push(format!("usage:{}", k));
         }
-        for o in ["long_say", "big_file", "io", "functions", "arrays", "flow", "dicts", "wild", "lint", "syntax_fault", "repo_snippet", "grammar"] {
+        for o in ["long_say", "big_file", "io", "functions", "arrays", "flow", "dicts", "wild", "lint", "syntax_fault", "repo_snippet", "grammar", "error_quoting_an_awkward_value"] {
             v.push(format!("origin:{}", o));
         }
         v
